@@ -71,6 +71,8 @@ def diagnose(pid: int, log_path: Path | None = None, samples: int = 5, span: flo
         return {"verdict": "gone", "threads": 0, "stacks": ""}
     keys = set(snaps[0])
     active_reasons = []
+    cpu_total = 0
+    polling = 0
     for snap in snaps[1:]:
         if set(snap) != keys:
             active_reasons.append("thread set changed")
@@ -81,10 +83,19 @@ def diagnose(pid: int, log_path: Path | None = None, samples: int = 5, span: flo
             continue
         if any(s[0] not in ("S", "D", "I") for s in series):
             active_reasons.append(f"thread {key} runnable")
-        if series[-1][1] != series[0][1]:
-            active_reasons.append(f"thread {key} used cpu")
-        if series[-1][2] != series[0][2]:
-            active_reasons.append(f"thread {key} context switches moved")
+        cpu_total += series[-1][1] - series[0][1]
+        if scope == "tree":
+            if series[-1][1] != series[0][1]:
+                active_reasons.append(f"thread {key} used cpu")
+            if series[-1][2] != series[0][2]:
+                active_reasons.append(f"thread {key} context switches moved")
+        elif series[-1][2] != series[0][2]:
+            polling += 1
+    if scope != "tree" and cpu_total > 2:
+        # "process" scope: a CPython thread waiting for the GIL wakes every 5 ms (timed condition wait) without
+        # getting anywhere, so context switches alone do not show progress; what counts is CPU time: at most
+        # two clock ticks (20 ms) over the whole sampling span means nobody is computing.
+        active_reasons.append(f"threads used {cpu_total} clock ticks of cpu")
     verdict = "active" if active_reasons else "quiescent"
     stacks = ""
     if log_path is not None:
@@ -97,5 +108,5 @@ def diagnose(pid: int, log_path: Path | None = None, samples: int = 5, span: flo
                 stacks = handle.read().decode(errors="replace")[-6000:]
         except OSError:
             pass
-    return {"verdict": verdict, "threads": len(keys), "processes": len(pids),
-            "reasons": active_reasons[:6], "stacks": stacks}
+    return {"verdict": verdict, "threads": len(keys), "processes": len(pids), "cpu_ticks": cpu_total,
+            "polling_threads": polling, "reasons": active_reasons[:6], "stacks": stacks}
